@@ -32,19 +32,20 @@ Fixpoint no_resurrection (dead : list bool) (bs : list bool) : bool * list bool 
       (negb (d && b) && ok, (d || negb b) :: dead')
   end.
 
-(* walk a transcript applying the direct checks at every probe *)
-Fixpoint probes_ok (hs : list entity) (dead : list bool) (tr : list (op * wout)) : bool * bool :=
+(* walk a transcript applying the direct checks at every probe; [rhs]: the handles returned so far, most
+   recent first (reversed only when a probe needs them: linear in the length of the transcript) *)
+Fixpoint probes_ok (rhs : list entity) (dead : list bool) (tr : list (op * wout)) : bool * bool :=
   match tr with
   | [] => (true, true)
   | (o, out) :: tr' =>
-      let hs' := hs ++ returned o out in
+      let rhs' := rev_append (returned o out) rhs in
       match o, out with
       | OProbeAll, WBools bs =>
-          let d1 := alive_indices_distinct NS.empty hs bs in
+          let d1 := alive_indices_distinct NS.empty (rev rhs) bs in
           let '(d2, dead') := no_resurrection dead bs in
-          let '(r1, r2) := probes_ok hs' dead' tr' in
+          let '(r1, r2) := probes_ok rhs' dead' tr' in
           (d1 && r1, d2 && r2)
-      | _, _ => probes_ok hs' dead tr'
+      | _, _ => probes_ok rhs' dead tr'
       end
   end.
 
